@@ -8,13 +8,13 @@ open Req.Result Req.Props.C18
 
 /-- "target supplied, success state, carries content, unmarshals" for the http response `h`. -/
 def SuccessRHS (s : Stack) (h : Http) : Prop :=
-  s.successTarget = true ∧ stateOf h = .success ∧ h.status ≠ noContent ∧ h.readOK = true ∧ codecOK h = true
+  s.successTarget = true ∧ stateOf h = .success ∧ h.status ≠ noContent ∧ h.bodyOK = true ∧ codecOK h = true
 
 def ErrReqRHS (s : Stack) (h : Http) : Prop :=
-  s.errorTarget = true ∧ stateOf h = .error ∧ h.status ≠ noContent ∧ h.readOK = true ∧ codecOK h = true
+  s.errorTarget = true ∧ stateOf h = .error ∧ h.status ≠ noContent ∧ h.bodyOK = true ∧ codecOK h = true
 
 def ErrCommonRHS (s : Stack) (h : Http) : Prop :=
-  s.errorTarget = false ∧ s.commonErr = true ∧ stateOf h = .error ∧ h.status ≠ noContent ∧ h.readOK = true ∧ codecOK h = true
+  s.errorTarget = false ∧ s.commonErr = true ∧ stateOf h = .error ∧ h.status ≠ noContent ∧ h.bodyOK = true ∧ codecOK h = true
 
 /-- The slots of `r` are exactly what the http response it carries calls for. -/
 def Agrees (s : Stack) (r : Resp) : Prop :=
@@ -30,16 +30,16 @@ theorem Agrees.of_eq {s : Stack} {r r' : Resp} (h : Agrees s r) (h1 : r'.http = 
     Agrees s r' := by
   unfold Agrees at h ⊢; rw [h1, h2]; exact h
 
-/-- After the auto-read block, "no error recorded and the body is or can be read" is `readOK`. -/
+/-- After the auto-read block, "no error recorded and the body is or can be read" is `bodyOK` (reads and transforms). -/
 theorem autoRead_ready (s : Stack) (r : Resp) (h : Http) (hh : r.http = some h) (he : r.err = none) (hb : r.bodyCached = false) :
     (autoRead s r).1.http = some h ∧ (autoRead s r).1.slots = r.slots ∧
-    (((autoRead s r).1.err = none ∧ ((autoRead s r).1.bodyCached = true ∨ h.readOK = true)) ↔ h.readOK = true) := by
+    (((autoRead s r).1.err = none ∧ ((autoRead s r).1.bodyCached = true ∨ h.bodyOK = true)) ↔ h.bodyOK = true) := by
   unfold autoRead
   simp only [hh]
   split
   · split
-    · rename_i hr; simp [he, hr]
-    · rename_i hr; simp [hr]
+    · rename_i hr; simp [he, hr, Http.bodyOK]
+    · rename_i hr; simp [hr, Http.bodyOK]
   · simp [hh, he, hb]
 
 theorem autoRead_nohttp (s : Stack) (r : Resp) (hh : r.http = none) : (autoRead s r).1 = r := by
@@ -58,7 +58,7 @@ theorem readParse_agrees (s : Stack) (r : Resp) (hs : r.slots = {}) (hb : r.body
     simp [bindIn, hh, hs]
   · obtain ⟨h1, h2, h3⟩ := autoRead_ready s r h hh (he (by simp [hh])) hb
     generalize (autoRead s r).1 = r' at h1 h2 h3
-    have hready : Ready (bindIn s r') h ↔ (h.readOK = true ∧ codecOK h = true) := by
+    have hready : Ready (bindIn s r') h ↔ (h.bodyOK = true ∧ codecOK h = true) := by
       unfold Ready
       simp only [bindIn]
       constructor
@@ -107,7 +107,7 @@ theorem readParse_agrees (s : Stack) (r : Resp) (hs : r.slots = {}) (hb : r.body
           simp only [bindIn] at a b c
           refine ⟨⟨by simp, fun ⟨x, y, z, _⟩ => absurd ⟨x, y, z⟩ a⟩, ⟨by simp, fun ⟨x, y, z, _⟩ => absurd ⟨x, y, z⟩ b⟩,
             ⟨fun _ => ⟨c.1, c.2.1, c.2.2.1, c.2.2.2, hr'.1, hr'.2⟩, fun _ => by simp⟩, by simp⟩
-      · have hr' : ¬ (h.readOK = true ∧ codecOK h = true) := fun x => hr (hready.mpr x)
+      · have hr' : ¬ (h.bodyOK = true ∧ codecOK h = true) := fun x => hr (hready.mpr x)
         simp only [hr, if_false]
         refine ⟨⟨by simp, fun ⟨_, _, _, x, y⟩ => absurd ⟨x, y⟩ hr'⟩, ⟨by simp, fun ⟨_, _, _, x, y⟩ => absurd ⟨x, y⟩ hr'⟩,
           ⟨by simp, fun ⟨_, _, _, _, x, y⟩ => absurd ⟨x, y⟩ hr'⟩, by simp⟩
